@@ -153,6 +153,17 @@ CHECKS = {
         engine="fsx (ptrace syscall tracer) + p11sh",
         note="Fault model: process death (completed syscalls are durable; no torn or reordered writes); 38 crash states of the in-place rewrite / multi-transaction "
              "creation protocol are genuine defects recorded in known_findings.json, every other signature raises a VIOLATION."),
+    "C15": dict(
+        category="model_checking", design_ref="DESIGN.md 3/C15",
+        technique="exhaustive exploration of real processes sharing one token directory: (a) unmerged depth-first enumeration of every call sequence up to depth d over 2-3 processes (process snapshots by fork, directory saved/restored per edge) against a shared-map reference model, with a look-ahead probe of every process and of a silent witness process after every call; (b) stateless preemption-bounded schedule enumeration at file-system syscall granularity under a ptrace scheduler (fsx schedule) for pairs of concurrent writers, judged by serialisability of the committed calls",
+        text="(a) quick: 2 processes x depth 4 (39 146 sequences) and 3 processes x depth 3 (9 516), alphabet per process {create, set label of o1, set end date of o1, set label of private "
+             "k1, destroy o1, search+read all, read o1 through an old handle}; after every call the complete object list with values seen by each process, by a witness that never "
+             "calls, and the old handle of o1 must equal the model. (b) 9 writer pairs (set/set same and different attribute, set/destroy, destroy/destroy, create/create, create/find, "
+             "destroy/get, set/get, private set/find): every schedule with <= 1 (quick) / <= 2-3 (thorough, by budget) preemptions at the ~60-700 syscall points; no deadlock on the "
+             "fcntl locks, no death, and the views of both processes and of a fresh process must equal those left by executing the calls that returned CKR_OK serially in some order.",
+        engine="p11sh processes; fsx schedule (ptrace, one tracee runs at a time, fcntl(F_SETLKW) sleeps are blocking)",
+        note="File store only. Return codes of calls that fail under a race (for example CKR_FUNCTION_FAILED of the losing C_DestroyObject) are recorded but not judged: the property "
+             "speaks about committed changes. Two genuine defects found here were repaired (lost update, resurrected object; see known_findings.json 'fixed')."),
     "C18": dict(
         category="model_checking", design_ref="DESIGN.md 3/C18",
         technique="stateless model checking of the real library under a deterministic scheduler injected through the C_Initialize mutex callbacks: every schedule with at most k preemptions (iterative context bounding, k=1..3 chosen per body by a schedule budget and reported) at LockMutex / thread start / thread end points, each executed in a fresh process image; linearizability oracle = outcomes of all sequential call orders run on the same library",
@@ -192,7 +203,7 @@ def main():
         "setup_cmd": "python3 tools/build_sut.py ossl-asan ossl-plain botan-plain ref fsx",
         "hooks": {"guard": "SOFTHSM_VERIF", "enable": "tools/build_sut.py passes -DSOFTHSM_VERIF to every variant it compiles from /repo's working tree",
                   "baseline_off_cmd": "cmake --build /repo/_build && ctest --test-dir /repo/_build -j8 --timeout 900",
-                  "source_commits": [], "fix_commits": ["6bd3dce", "e87af21", "bea9994", "588c9b7", "ceb5015", "38ed9d5", "d3eb7f4", "bf60869", "58c10b5", "813a6d6", "2adb934", "9affe31", "8d94e13", "fd7cd14", "084c459"], "add_only": True},
+                  "source_commits": [], "fix_commits": ["a80c8a6", "ba231e7", "6bd3dce", "e87af21", "bea9994", "588c9b7", "ceb5015", "38ed9d5", "d3eb7f4", "bf60869", "58c10b5", "813a6d6", "2adb934", "9affe31", "8d94e13", "fd7cd14", "084c459"], "add_only": True},
         "engines": [
             {"name": "p11sh", "path": "engine/p11sh", "serves_properties": sorted(CHECKS), "kind_free_text": "PKCS#11 shell linked statically against the SUT; SNAP/BACK process snapshots; guard pages + canaries around every buffer"},
             {"name": "p11mc", "path": "py/p11mc", "serves_properties": sorted(CHECKS), "kind_free_text": "explicit-state explorer (level-synchronous BFS with replay-to-state, unmerged DFS), reference models, evidence/findings glue"},
